@@ -365,6 +365,248 @@ theorem getData_spec {s : State} {vid : Nat} {idx : List Ix} {v : Vec} {out : Li
           intro o src haddr
           simp [List.getElem?_map, positions_addr haddr ps hps]
 
+/-! ## 6. Value-level laws: what assignment, field arithmetic and column add/remove store -/
+
+/-- **assignment** `v[idx] = [a₀, a₁, …]` (slices / lists / short index): when it succeeds, the heap
+and every other vector are untouched, the vector keeps its schema, every cell that is not addressed
+keeps what it held, and — for distinct addressed positions — the cell at the k-th addressed
+position (`ps[k]`, whose coordinates `positions_addr` / `slice_spec` give) holds exactly the k-th
+array of the list (the very reference, no copy). -/
+theorem assign_spec {s s' : State} {vid : Nat} {v : Vec} {idx : List Ix} {xs : List Val}
+    (hI : Inv s) (hv : s.getVec vid = .ok v) (hle : idx.length ≤ v.shape.length)
+    (hf : (padIdx v.shape.length idx).any Ix.isFancy = true)
+    (h : opSetItem s vid idx (.many xs) = (s', .none)) :
+    ∃ (ls : List (List Int)) (ps : List Nat) (v' : Vec),
+      resolveAll true v.shape (padIdx v.shape.length idx) = .ok ls ∧ positions v.shape ls = .ok ps ∧
+      xs.length = ps.length ∧ s'.heap = s.heap ∧ s'.metas = s.metas ∧ s'.vecs = s.vecs.set vid v' ∧
+      v'.shape = v.shape ∧ v'.fields = v.fields ∧ v'.units = v.units ∧
+      (∀ p, p ∉ ps → v'.cells[p]? = v.cells[p]?) ∧
+      (ps.Nodup → ∀ (k p : Nat), ps[k]? = some p → ∃ r, xs[k]? = some (.ref r) ∧ v'.cells[p]? = some (some r)) := by
+  have hvok := hI.vecs v (getVec_mem hv)
+  unfold opSetItem at h
+  simp only [hv] at h
+  rw [if_neg (by omega)] at h
+  unfold setItemCore at h
+  simp only [hf, if_true] at h
+  split at h
+  · simp at h
+  · rename_i ls hls
+    split at h
+    · simp at h
+    · rename_i ps hps
+      split at h
+      · simp at h
+      · rename_i hlen
+        have hlen' : xs.length = ps.length := by simpa using hlen
+        unfold finish at h
+        simp only [Prod.mk.injEq] at h
+        obtain ⟨h1, h2⟩ := h
+        have hok : (setCells s.heap v.fields.length v.cells ps xs).2 = none := by
+          cases hr : (setCells s.heap v.fields.length v.cells ps xs).2 with
+          | none => rfl
+          | some e => rw [hr] at h2; simp at h2
+        have hlt : ∀ p ∈ ps, p < v.cells.length := by
+          intro p hp; rw [hvok.ncells]; exact positions_lt _ _ _ hps p hp
+        obtain ⟨i1, i2⟩ := setCells_spec_values s.heap v.fields.length ps xs v.cells hok hlen' hlt
+        subst h1
+        refine ⟨ls, ps, _, hls, hps, hlen', rfl, rfl, rfl, rfl, rfl, rfl, i1, ?_⟩
+        intro hnd k p hk
+        obtain ⟨x, r, e1, e2, e3⟩ := i2 hnd k p hk
+        exact ⟨r, by rw [e1, checkVal_ref e2], e3⟩
+
+/-- **field arithmetic acts on exactly the vector's cells**: after `v[f] op= c` on a vector
+without aliased cells, the array of every populated cell is `mapCol j f` of what it was (and by
+`frame_fieldOp` every array that is not a cell of `v` is untouched). -/
+theorem fieldOp_values {s : State} (hI : Inv s) {vid : Nat} {v : Vec} {name : String} {j : Nat} (f : Rat → Rat)
+    (hv : s.getVec vid = .ok v) (hj : fieldIndex v name = .ok j) (hnd : (refsOf v.cells).Nodup) :
+    ∀ r, some r ∈ v.cells → (opFieldOp s vid name f).1.heap[r]? = (s.heap[r]?).map (·.mapCol j f) := by
+  intro r hr
+  rw [fieldOp_state s hI.wf vid name f v j hv hj]
+  exact applyOp_get j f v.cells s.heap hnd r hr
+
+/-- **column-wise**: `mapCol j f` rewrites column `j` as `f` of its entries (cast to the array's
+dtype: an int64 array truncates toward zero) and leaves every other column, the shape and the
+dtype exactly as they were. -/
+theorem fieldOp_columnwise {s : State} (hI : Inv s) {vid : Nat} {v : Vec} {name : String} {j : Nat} (f : Rat → Rat)
+    (hv : s.getVec vid = .ok v) (hj : fieldIndex v name = .ok j) (hnd : (refsOf v.cells).Nodup)
+    {r : Ref} {a : Arr} (hr : some r ∈ v.cells) (ha : s.heap[r]? = some a) :
+    ∃ a', (opFieldOp s vid name f).1.heap[r]? = some a' ∧
+      a'.col j = (a.col j).map (fun x => castTo a.isInt (f x)) ∧
+      (∀ j', j' ≠ j → a'.col j' = a.col j') ∧
+      a'.nrows = a.nrows ∧ a'.ncols = a.ncols ∧ a'.isInt = a.isInt := by
+  have hvok := hI.vecs v (getVec_mem hv)
+  obtain ⟨a0, ha0, hn⟩ := hvok.cells _ hr r rfl
+  rw [ha] at ha0
+  have e : a0 = a := by cases ha0; rfl
+  subst e
+  have hjlt : j < a0.ncols := by
+    rw [hn]
+    unfold fieldIndex at hj
+    split at hj
+    · rename_i hc; cases hj; exact List.idxOf_lt_length_of_mem (by simpa using hc)
+    · cases hj
+  refine ⟨a0.mapCol j f, ?_, Arr.mapCol_col_same (hI.wf a0 (List.mem_of_getElem? ha)) hjlt f,
+    fun j' h => Arr.mapCol_col_other a0 f h, by simp [Arr.mapCol, Arr.nrows], rfl, rfl⟩
+  rw [fieldOp_values hI f hv hj hnd r hr, ha]; rfl
+
+/-- **field arithmetic through a slice** `v[idx][f] op= c` touches exactly the addressed cells of
+`v`: the view `w = v[idx]` holds the addressed cells themselves (`slice_spec`), the heap is not
+changed by slicing, the arrays in `w` become `mapCol j f` of what they were and every other array
+— in particular every cell of `v` that is not addressed (and not the same array as an addressed
+one) — is untouched. -/
+theorem fieldOp_on_slice {s s1 : State} (hI : Inv s) {vid wid : Nat} {idx : List Ix} {w : Vec} {name : String}
+    {j : Nat} (f : Rat → Rat) (hg : opGetItem s vid idx = (s1, .newVec wid)) (hw : s1.getVec wid = .ok w)
+    (hj : fieldIndex w name = .ok j) :
+    (∀ r, some r ∉ w.cells → (opFieldOp s1 wid name f).1.heap[r]? = s.heap[r]?) ∧
+    ((refsOf w.cells).Nodup → ∀ r, some r ∈ w.cells →
+        (opFieldOp s1 wid name f).1.heap[r]? = (s.heap[r]?).map (·.mapCol j f)) ∧
+    (opFieldOp s1 wid name f).1.vecs = s1.vecs := by
+  obtain ⟨_, _, _, _, _, _, _, _, _, hheap, _⟩ := slice_spec hg
+  have hI1 : Inv s1 := by
+    have := inv_getItem hI vid idx
+    rw [hg] at this; exact this
+  refine ⟨?_, ?_, by rw [fieldOp_state s1 hI1.wf wid name f w j hw hj]⟩
+  · intro r hr
+    rw [← hheap]; exact (frame_fieldOp s1 wid name f w r hw hr).1
+  · intro hnd r hr
+    rw [← hheap]; exact fieldOp_values hI1 f hw hj hnd r hr
+
+/-- **field arithmetic with an ndarray (or scalar) operand**, `v[f] op= ys`: on a vector without
+aliased cells, if the loop runs to the end (every cell's row count broadcasts with the operand),
+every populated cell's column `j` becomes `g` of its entries and the broadcast operand, cast to the
+cell's dtype; every other column and every array outside `v` is unchanged (`Arr.setCol_col_other`,
+`applyGen_frame`).  When a cell does not broadcast the loop stops there with ValueError and the
+earlier cells stay updated — modelled, and compared with the code on every run. -/
+theorem fieldOpGen_values {s : State} (hI : Inv s) {vid : Nat} {v : Vec} {name : String} {j : Nat}
+    (g : Rat → Rat → Rat) (neg : Bool) (rhs : RhsR) (hs : rhs.isStatic = true)
+    (hj : fieldIndex v name = .ok j) (hnd : (refsOf v.cells).Nodup)
+    (hok : (applyGen j g neg rhs s.heap v.cells).2 = none) :
+    (∀ r a, some r ∈ v.cells → s.heap[r]? = some a →
+      ∃ ys, rhs.vals a.nrows = some ys ∧ ∃ a', (applyGen j g neg rhs s.heap v.cells).1[r]? = some a' ∧
+        a' = a.setCol j (List.zipWith g (a.col j) ys) ∧ (∀ j', j' ≠ j → a'.col j' = a.col j')) ∧
+    (∀ r, some r ∉ v.cells → (applyGen j g neg rhs s.heap v.cells).1[r]? = s.heap[r]?) := by
+  constructor
+  · intro r a hr ha
+    obtain ⟨ys, h1, h2⟩ := applyGen_get j g neg rhs hs v.cells s.heap hnd hok r a hr ha
+    exact ⟨ys, h1, _, h2, rfl, fun j' h => Arr.setCol_col_other a _ h⟩
+  · intro r hr
+    exact applyGen_frame j g neg rhs r v.cells s.heap hr
+
+/-- **add_fields keeps the other columns' values**: on every reachable state `add_fields names`
+(new, distinct names) succeeds; each populated cell gets a new array with the same rows, the old
+columns unchanged and one zero column per new field (`AddedCols`); unset cells stay unset and no
+array that existed before is modified. -/
+theorem add_fields_values {s : State} (hI : Inv s) {vid : Nat} {v : Vec} {names : List String}
+    (hv : s.getVec vid = .ok v) (hnew : ∀ n ∈ names, n ∉ v.fields) (hnd : names.Nodup) :
+    ∃ (s1 : State) (v1 : Vec) (ext : List Arr), opAddFields s vid names = (s1, .none) ∧ s1.getVec vid = .ok v1 ∧
+      s1.heap = s.heap ++ ext ∧ v1.shape = v.shape ∧ v1.fields = v.fields ++ names ∧
+      v1.units = v.units ++ List.replicate names.length "none" ∧
+      All2 (AddedCols names.length s.heap s1.heap) v.cells v1.cells := by
+  obtain ⟨s1, v1, ext, h1, h2, h3, h4, h5, h6, rel⟩ := addFields_spec hI hv hnew hnd
+  refine ⟨s1, v1, ext, h1, h2, h3, h4, h5, h6, ?_⟩
+  rw [h3]
+  refine All2.imp_mem ?_ rel
+  intro c _ c1 hrel
+  cases c with
+  | none => exact hrel
+  | some r =>
+    obtain ⟨r1, a, e1, ha, ha1⟩ := hrel
+    have hwf := hI.wf a (List.mem_of_getElem? ha)
+    exact ⟨r1, a, _, e1, ha, ha1, by simp [Arr.addCols, Arr.nrows], rfl,
+      fun j hj => Arr.addCols_col_old hwf _ hj, fun j h1 h2 => Arr.addCols_col_new hwf _ h1 h2⟩
+
+/-- **remove_fields keeps the other columns' values**: when at least one of the names is a field,
+`remove_fields names` succeeds on every reachable state; the kept columns are exactly those whose
+field name is not in `names` (`keep_mem_iff`), fields and units are the kept ones in order, and each
+populated cell gets a new array of the same dtype whose i-th column is the old column `keep[i]`. -/
+theorem remove_fields_values {s : State} (hI : Inv s) {vid : Nat} {v : Vec} {names : List String}
+    (hv : s.getVec vid = .ok v) (hsome : ∃ n ∈ names, n ∈ v.fields) :
+    ∃ (s2 : State) (v2 : Vec) (keep : List Nat) (ext : List Arr),
+      opRemoveFields s vid names = (s2, .none) ∧ s2.getVec vid = .ok v2 ∧ s2.heap = s.heap ++ ext ∧
+      (∀ i, i ∈ keep ↔ ∃ h : i < v.fields.length, v.fields[i] ∉ names) ∧
+      v2.shape = v.shape ∧ v2.fields = keep.map (v.fields.getD · "") ∧ v2.units = keep.map (v.units.getD · "") ∧
+      All2 (KeptCols keep s.heap s2.heap) v.cells v2.cells := by
+  have hvok := hI.vecs v (getVec_mem hv)
+  have hne : ((names.filter (v.fields.contains ·)).map (v.fields.idxOf ·)).isEmpty = false := by
+    obtain ⟨n, hn, hf⟩ := hsome
+    have : n ∈ names.filter (v.fields.contains ·) := by simp [hn, hf]
+    cases hl : names.filter (v.fields.contains ·) with
+    | nil => rw [hl] at this; cases this
+    | cons _ _ => simp
+  obtain ⟨s2, v2, ext, h1, h2, h3, h4, h5, h6, rel⟩ := removeFields_spec hI hv _ _ rfl rfl hne
+  refine ⟨s2, v2, _, ext, h1, h2, h3, fun i => keep_mem_iff v.fields names hvok.nodup i, h4, h5, h6, ?_⟩
+  rw [h3]
+  refine All2.imp_mem ?_ rel
+  intro c _ c2 hrel
+  cases c with
+  | none => exact hrel
+  | some r =>
+    obtain ⟨r2, a, e1, ha, ha2⟩ := hrel
+    exact ⟨r2, a, _, e1, ha, ha2, by simp [Arr.keepCols, Arr.nrows], rfl, rfl,
+      fun i hi => Arr.keepCols_col a _ hi⟩
+
+/-! ## 7. The property setters (outside the quantified operation list)
+
+The statement quantifies over creation, assignment / retrieval, field arithmetic, flatten /
+set_flattened, add / remove fields, copy and slicing.  Assigning to `v.fields`, `v.units`, `v.shape`
+is not in that list; the model keeps them outside `Op`.  What they would do to the invariant: -/
+
+/-- the `units` setter validates the length against the number of fields: harmless -/
+theorem units_setter_preserves_invariant {s : State} (hI : Inv s) (vid : Nat) (us : Option (List String)) :
+    Inv (opSetUnitsAttr s vid us).1 := by
+  unfold opSetUnitsAttr
+  split
+  · exact hI
+  · rename_i v hv
+    have hvok := hI.vecs v (getVec_mem hv)
+    split
+    · exact hI
+    · rename_i us' hus
+      exact hI.putVec (heap' := s.heap) vid hI.wf (HeapExt.refl _)
+        ⟨hvok.nodup, validateUnits_ok hus, hvok.ncells, hvok.cells, hvok.mref, hvok.pos⟩
+
+/-- the `fields` setter is harmless as a pure RENAME (same number of unique names) … -/
+theorem fields_setter_rename_preserves_invariant {s : State} (hI : Inv s) (vid : Nat) {v : Vec} (fs : List String)
+    (hv : s.getVec vid = .ok v) (hlen : fs.length = v.fields.length) : Inv (opSetFieldsAttr s vid fs).1 := by
+  have hvok := hI.vecs v (getVec_mem hv)
+  unfold opSetFieldsAttr
+  simp only [hv]
+  split
+  · exact hI
+  · rename_i fs' hfs
+    obtain ⟨e, hnd⟩ := validateFields_ok hfs
+    subst e
+    exact hI.putVec (heap' := s.heap) vid hI.wf (HeapExt.refl _)
+      ⟨hnd, by rw [hvok.units, hlen], hvok.ncells, by simpa [hlen] using hvok.cells, hvok.mref, hvok.pos⟩
+
+/-- … but it never compares the number of names with the columns of the cell arrays: on a
+reachable state `v.fields = ["a"]` is accepted for a vector whose cells have two columns, and the
+invariant (one column per field) is gone.  This is a property of the setter, which is not one of
+the operations the statement lists; reported, not repaired. -/
+theorem fields_setter_counterexample :
+    ∃ (ops : List Op) (fs : List String), (opSetFieldsAttr (run init ops) 0 fs).2 = .none ∧
+      ¬ Inv (opSetFieldsAttr (run init ops) 0 fs).1 := by
+  refine ⟨[.alloc 2 [[1, 2]] false, .fromShape [1] none (some ["x", "y"]) none, .setItem 0 [.int 0] (.one (.ref 0))],
+    ["a"], rfl, ?_⟩
+  intro h
+  have hv := h.vecs (Vec.mk [1] [some 0] ["a"] ["none", "none"] 0) (by
+    show _ ∈ (opSetFieldsAttr _ 0 ["a"]).1.vecs
+    exact List.mem_of_getElem? (i := 0) rfl)
+  have := hv.units
+  simp at this
+
+/-- likewise the `shape` setter only checks positivity and leaves the cells alone -/
+theorem shape_setter_counterexample :
+    ∃ (ops : List Op) (sh : List Int), (opSetShapeAttr (run init ops) 0 sh).2 = .none ∧
+      ¬ Inv (opSetShapeAttr (run init ops) 0 sh).1 := by
+  refine ⟨[.fromShape [2] (some 1) none none], [5], rfl, ?_⟩
+  intro h
+  have hv := h.vecs (Vec.mk [5] [none, none] ["field_0"] ["none"] 0) (by
+    show _ ∈ (opSetShapeAttr _ 0 [5]).1.vecs
+    exact List.mem_of_getElem? (i := 0) rfl)
+  have := hv.ncells
+  simp [prod] at this
+
 /-! ## Non-vacuity -/
 
 /-- the invariant is not vacuous: a world with an aliased array and a 3-D vector satisfies it
@@ -383,6 +625,40 @@ example : Inv (run init demoOps) := invariant_all_histories _
 example : (run init demoOps).getVec 0 = .ok (Vec.mk [2] [some 0, none] ["x", "y"] ["none", "none"] 0) := rfl
 example : (refsOf [some 0, none]).Nodup := by decide
 example : "x" ∈ ["x", "y"] ∧ (∀ n ∈ ["z", "w"], n ∉ ["x", "y"]) ∧ ["z", "w"].Nodup ∧ ["z", "w"] ≠ [] := by decide
+
+/-- `assign_spec`: a slice assignment with a value list succeeds on the reachable demo state (the
+same array into both cells), its index is "fancy", and the addressed positions are distinct -/
+example : (opSetItem (run init demoOps) 0 [.slice none none none] (.many [.ref 0, .ref 0])).2 = .none := rfl
+example : (padIdx 1 [Ix.slice none none none]).any Ix.isFancy = true := rfl
+example : positions [2] [[0, 1]] = .ok [0, 1] ∧ [0, 1].Nodup := ⟨rfl, by decide⟩
+
+/-- `fieldOp_values` / `fieldOp_columnwise` / `fieldOpGen_values`: the demo vector has the field,
+no aliased cells, and an ndarray operand of matching length broadcasts (the loop ends without error);
+a mismatching one stops with ValueError -/
+example : fieldIndex (Vec.mk [2] [some 0, none] ["x", "y"] ["none", "none"] 0) "y" = .ok 1 := rfl
+example : (applyGen 1 (· + ·) false (.array [10, 20]) (run init demoOps).heap [some 0, none]).2 = none := rfl
+example : (applyGen 1 (· + ·) false (.array [10, 20, 30]) (run init demoOps).heap [some 0, none]).2 = some .valueError := rfl
+example : (RhsR.array [10, 20]).isStatic = true := rfl
+
+/-- dtype kinds: assignment into an int64 array truncates toward zero; an int64 cell raises on a
+negative Python-int power -/
+example : truncQ (Rat.mk' (-5) 2 (by decide) (by decide)) = ((-2 : Int) : Rat) := rfl   -- trunc(-5/2) = -2
+example : truncQ (Rat.mk' 7 2 (by decide) (by decide)) = ((3 : Int) : Rat) := rfl      -- trunc(7/2) = 3
+example : (applyGen 0 (fun x _ => x) true (.scalar (-1)) [Arr.mk 1 [[2]] true] [some 0]).2 = some .valueError := rfl
+
+/-- over-long index tuples and zero fixed dimensions are modelled, not rejected: `v[0, 1]` on a 1-D
+vector returns row 1 of the cell array; `v[0, 1, 0]` its first entry; on a vector with shape `()`
+the single cell can be read (unset) but never assigned -/
+example : (opGetItem (run init demoOps) 0 [.int 0, .int 1]).2 = .np (.arr1 [3, 4] false) := rfl
+example : (opGetItem (run init demoOps) 0 [.int 0, .int 1, .int 0]).2 = .np (.scalar 3 false) := rfl
+example : (opGetItem (opFromShape init [] (some 1) none none).1 0 []).2 = .cell none := rfl
+example : (opSetItem (run init [.alloc 1 [[5]] false, .fromShape [] (some 1) none none]) 1 [] (.one (.ref 0))).2
+    = .err .badHandle := rfl
+example : (opSetItem (run init [.alloc 1 [[5]] false, .fromShape [] (some 1) none none]) 0 [] (.one (.ref 0))).2
+    = .err .indexError := rfl
+
+/-- `add_fields_values` / `remove_fields_values`: hypotheses satisfiable on the demo vector -/
+example : ∃ n ∈ ["y", "zz"], n ∈ ["x", "y"] := ⟨"y", by decide, by decide⟩
 
 /-- `Addr` instances exist for 1, 2 and 3 fixed dimensions, with slices expanded to index lists,
 negative indices wrapping, and repeated list entries. -/
